@@ -1,0 +1,100 @@
+// Copyright 2019 Samaritan Authors
+//
+// Licensed under the Apache License, Version 2.0 (the "License");
+// you may not use this file except in compliance with the License.
+// You may obtain a copy of the License at
+//
+//      http://www.apache.org/licenses/LICENSE-2.0
+//
+// Unless required by applicable law or agreed to in writing, software
+// distributed under the License is distributed on an "AS IS" BASIS,
+// WITHOUT WARRANTIES OR CONDITIONS OF ANY KIND, either express or implied.
+// See the License for the specific language governing permissions and
+// limitations under the License.
+
+//go:build verif
+// +build verif
+
+package proc
+
+import (
+	"fmt"
+	"net"
+
+	"github.com/samaritan-proxy/samaritan/pb/config/service"
+	"github.com/samaritan-proxy/samaritan/proc/internal/log"
+)
+
+// This file only exists with the build tag "verif". It gives the model-based
+// verification harness access to the listener: a constructor that does not
+// need the internal logger package, a setter for the bind function, and a
+// read-only view of the state of a *listener passed to a verifhook point.
+
+// VerifNewListener is NewListener with a logger created from name.
+func VerifNewListener(cfg *service.Listener, stats *DownstreamStats, name string, connHandleFn ConnHandlerFunc) (Listener, error) {
+	return NewListener(cfg, stats, log.New(name), connHandleFn)
+}
+
+// VerifListenFunc is the type of the bind function used by Serve.
+type VerifListenFunc func(proto, addr string) (net.Listener, error)
+
+// VerifSetListenFunc replaces the bind function used by every listener and
+// returns the previous one (nil restores nothing; pass the returned value to
+// restore).
+func VerifSetListenFunc(fn VerifListenFunc) VerifListenFunc {
+	old := VerifListenFunc(defaultListenFunc)
+	if fn != nil {
+		defaultListenFunc = fn
+	}
+	return old
+}
+
+// VerifListenerState is the observable state of a listener.
+type VerifListenerState struct {
+	Quit, Drain, Done bool // the three latches
+	LnSet             bool // l.ln has been published
+	ConnsNil          bool // the registry has been taken by Stop
+	Conns             int  // size of the registry
+	Addr              string
+}
+
+// VerifListenerStateOf returns the state of the *listener passed to a hook
+// point (or returned by NewListener).
+func VerifListenerStateOf(obj interface{}) (VerifListenerState, bool) {
+	l, ok := obj.(*listener)
+	if !ok || l == nil {
+		return VerifListenerState{}, false
+	}
+	st := VerifListenerState{}
+	select {
+	case <-l.quit:
+		st.Quit = true
+	default:
+	}
+	select {
+	case <-l.drain:
+		st.Drain = true
+	default:
+	}
+	select {
+	case <-l.done:
+		st.Done = true
+	default:
+	}
+	l.mu.Lock()
+	st.LnSet = l.ln != nil
+	st.ConnsNil = l.conns == nil
+	st.Conns = len(l.conns)
+	l.mu.Unlock()
+	st.Addr = fmt.Sprintf("%s:%d", l.cfg.GetAddress().GetIp(), l.cfg.GetAddress().GetPort())
+	return st, true
+}
+
+// VerifIsListener tells whether obj is a *listener and returns its configured address.
+func VerifIsListener(obj interface{}) (string, bool) {
+	l, ok := obj.(*listener)
+	if !ok || l == nil {
+		return "", false
+	}
+	return fmt.Sprintf("%s:%d", l.cfg.GetAddress().GetIp(), l.cfg.GetAddress().GetPort()), true
+}
